@@ -179,13 +179,22 @@ def guard_rules(ck, prog):
         raise AnchorError(f"perform_verification: {len(reads)} reads of the optional GKR proof")
     # (3) the claimed base field is compared before the context is interpreted in that field
     vf = prog.fn("winter_verifier::verify")
-    gv = [x for x in mg.of(vf) if x.fn is vf and x.kind == "switch" and "InconsistentBaseField" in x.errs]
+    gv = [x for x in mg.of(vf) if x.kind == "switch" and "InconsistentBaseField" in x.errs]
     enc = [(b, T) for b, t in vf.calls() if (callee_name(t) or "").endswith("ToElements::to_elements")
            and ((t.get("fn") or {}).get("targs") or [""])[0].endswith("proof::context::Context")]
     if not enc:
         from ..ir import AnchorError
         raise AnchorError("verify(): the context is not encoded into field elements")
-    ok = bool(gv) and must_between(vf, None, [(x.block, T) for x in gv], enc)[0]
+    # the decision itself, or the call in verify() of the helper that makes it (and whose error is propagated)
+    dec_nodes = []
+    for x in gv:
+        if x.fn is vf:
+            dec_nodes.append((x.block, T))
+        else:
+            for caller, sites in x.via:
+                if caller is vf:
+                    dec_nodes += [(cb, T) for cb, _ in sites]
+    ok = bool(dec_nodes) and must_between(vf, None, dec_nodes, enc)[0]
     ck.ob("G", "verify:base-field-before-context-encoding", ok,
           "every path to Context::to_elements (which asserts on the modulus byte length) passes the InconsistentBaseField decision first",
           loc=vf.loc(enc[0][0], T))
